@@ -72,4 +72,6 @@ package pm
 //@ modifies type MatchData.captures, elems(uint32)
 //@ loop 1 invariant 0 <= pc && pc < len(insts) && 0 <= sp && Inv_md(m) && (len(ms) > 0 ==> m == ms[0] && len(m.captures) >= old(len(ms[0].captures)))
 //@ loop 2 invariant 0 <= sp && Inv_md(m) && (len(ms) > 0 ==> m == ms[0] && len(m.captures) >= old(len(ms[0].captures))) && 0 <= pc && pc < len(insts) && insts[pc].OpCode == 7
+// %bxy reports "no match" only after it has examined the subject up to its end (functional clause, not only safety)
+//@ loop 2 exit sp >= len(src)
 //@ loop 3 invariant 0 <= i && 0 <= sp && Inv_md(m) && (len(ms) > 0 ==> m == ms[0] && len(m.captures) >= old(len(ms[0].captures))) && 0 <= pc && pc < len(insts) && insts[pc].OpCode == 8 && offset(capture) >= 0
